@@ -324,7 +324,7 @@ pub fn run_isolated(code: &str, vars: &[(&str, &MVal)], input: &MVal, inputs: &[
                 let n = ABANDONED.fetch_add(1, std::sync::atomic::Ordering::SeqCst) + 1;
                 if n > 12 {
                     println!("INCONCLUSIVE reason=too-many-runs-exceeded-their-time-limit last={}", code.chars().take(400).collect::<String>());
-                    std::process::exit(2);
+                    std::process::exit(crate::runner::inconclusive_status());
                 }
                 Iso::Timeout
             }
